@@ -37,22 +37,10 @@
   and has the void marker on both sides (`[] → [x…]`) is read back WITHOUT context (JSON Patch has
   no test for "the array is empty"); everything else is read back verbatim (`normH_eq_self`).
 -/
-import JdProofs.LcsProofs
 import JdProofs.EqualsList
-import JdProofs.NoPanic
 import JdProofs.StrictPatch
-import JdProofs.SetPatch
-import JdProofs.YamlProofs
-import JdProofs.MergeProofs
-import JdProofs.EqualsSet
-import JdProofs.DiffEmpty
-import JdProofs.DiffPatchList
-import JdProofs.Common
 import JdProofs.PatchRender
 import JdProofs.NativeRoundTrip
-import JdProofs.CliProofs
-import JdProofs.SourceTables
-import JdProofs.DiffMinimal
 
 namespace Jd.PB
 open Jd Jd.Spec
